@@ -37,7 +37,7 @@ META = {
     'components_stub': ['S3 bucket, directory listing order', 'multiprocessing (sample runs)', 'tunings (journaling)'],
     'budgets': {'quick': {'seconds': 30}, 'thorough': {'seconds': 480}},
     'required_probes': {'thorough': ['explicit_ids', 'lookup_driven', 'tuner_failed', 'interleaved_consumption', 'cassette_memory', 'cassette_file', 'cassette_s3',
-                                     'dedicated_process_sample', 'prefix_sibling_categories']},
+                                     'dedicated_process_sample', 'prefix_sibling_categories', 'more_than_20_ids_of_one_category']},
 }
 
 
@@ -124,8 +124,11 @@ def scenario(run, tape, clock, store):
     jstate = {}
     ops = build_ops(recorder, jstate)
     tag_of, cat_of, incomplete = {}, {}, set()
-    n = 1 + tape.draw(12)
-    cats_used = [tape.choice(S.CATEGORIES) for _ in range(n)]
+    many = tape.draw(8) == 7
+    n = 22 + tape.draw(6) if many else 1 + tape.draw(12)
+    cats_used = [tape.choice(S.CATEGORIES[:2] if many else S.CATEGORIES) for _ in range(n)]
+    if many:
+        run.probe('more_than_20_ids_of_one_category')
     spy_ids = []
     for i, cat in enumerate(cats_used):
         tag = 't%d' % i
@@ -167,7 +170,7 @@ def scenario(run, tape, clock, store):
     if explicit:
         run.probe('explicit_ids')
         complete_ids = [r for r in spy_ids if r not in incomplete]
-        k = tape.draw(len(complete_ids) + 1)
+        k = len(complete_ids) if many else tape.draw(len(complete_ids) + 1)
         selected = tape.shuffle(complete_ids)[:k]
         if not selected:
             selected = complete_ids[:1]
